@@ -18,6 +18,8 @@ def dispatch (line : String) : String :=
   | "config" :: args => Config.handle args
   | "epytext" :: args => Epytext.handle args
   | "determinism" :: args => Determinism.handle args
+  | "builder" :: args => Builder.handle args
+  | "output" :: args => Output.handle args
   | _ => "bad-op"
 
 partial def loop (h : IO.FS.Stream) (out : IO.FS.Stream) : IO Unit := do
